@@ -395,6 +395,7 @@ class CrashBench:
                 raise SimCrash("died before open")
             return CrashFile(path, mode, at, [], at_bytes)
         install_open(api, hook)
+        before = w.cache_stat()
         try:
             w.spy_log.clear()
             ok, r, msg = G.outcome_base(api.transfer_model, w.dirs[0], "M", w.real_opts(self.opts, []))
@@ -406,17 +407,21 @@ class CrashBench:
         leftovers = sorted(fn for fn in os.listdir(w.dirs[0]) if not fn.endswith(".mo"))
         after = w.cache_stat()
         now = w.clock + 1
-        if after is not None:
+        touched = after is not None and after != before
+        if touched:
+            # the dying call wrote (to) the cache file: its modification time is the time of the crash
             w.tick()
             G.set_mtime(w.cache_path(), w.ns(now))
-        on_disk = after[2] if after else None
+        # an untouched file (no file, or the older cache an atomic writer leaves in place) keeps its time: it is
+        # still out of date with respect to the edited source, exactly as before the call
+        on_disk = after[2] if touched else None
         label = "before-open" if before_open else "empty-file" if (at == 0 or at_bytes == 0) else \
             "after-write-call" if at is not None else "mid-write"
         ctx.case({"stream": "interrupt", "at": at, "at_bytes": at_bytes, "left": leftovers}, nontrivial=True,
                  key=["intr", self.text, at, at_bytes])
         ctx.count("interrupt:" + label)
         ctx.count("interrupt-leftovers:%d" % len(leftovers))
-        # the model follows what is on disk under the cache's name: nothing = died before open
+        # the model follows what the dying call did to the cache file: untouched = died before open
         w.model_ops.append(["crashed", w.model_opts(self.opts, []), now, len(self.B),
                             "beforeOpen" if on_disk is None else on_disk])
         where = "before open" if before_open else "at write call %s / byte %s (files left: %s)" % (at, at_bytes, leftovers)
@@ -497,13 +502,20 @@ class DynSched:
 
 
 class SchedFile:
-    def __init__(self, sched, i, path, mode):
+    """`visible`: the file is the cache file itself (readers can see every step); a temporary sibling is private,
+    its steps are still yield points but are logged as `tmp-…` and are not acts of the Lean model."""
+
+    def __init__(self, sched, i, path, mode, visible=True):
         self.sched, self.i, self.buf = sched, i, []
+        self.pre = "" if visible else "tmp-"
         sched.yield_point(i, "open")
         try:
             self.raw = io.open(path, mode, buffering=0)
         finally:
-            sched.did(["open", i])
+            sched.did([self.pre + "open", i])
+
+    def __getattr__(self, name):          # fileno / tell / seek …
+        return getattr(self.raw, name)
 
     def __enter__(self):
         return self
@@ -516,7 +528,7 @@ class SchedFile:
         pass
 
     def truncate(self, size=None):
-        self.truncate_after = True      # applied once the buffered bytes have reached the file
+        self.__dict__["truncate_after"] = True      # applied once the buffered bytes have reached the file
         return 0
 
     def close(self):
@@ -534,12 +546,12 @@ class SchedFile:
             n = self.sched.piece(len(data) - pos)
             self.raw.write(data[pos:pos + n])
             pos += n
-            self.sched.did(["write", self.i, n])
+            self.sched.did([self.pre + "write", self.i, n])
         self.sched.yield_point(self.i, "close")
-        if getattr(self, "truncate_after", False):
+        if self.__dict__.get("truncate_after", False):
             self.raw.truncate()
         self.raw.close()
-        self.sched.did(["close", self.i])
+        self.sched.did([self.pre + "close", self.i])
         return False
 
 
@@ -559,7 +571,7 @@ class OsProxy:
                 try:
                     return val(*a, **k)
                 finally:
-                    self._sched.did(["fsop", i, name])
+                    self._sched.did(["fsop", i, name] + [os.path.basename(str(x)) for x in a[:2]])
             return op
         return val
 
@@ -609,8 +621,9 @@ def run_schedule(ctx, bench, seed, f0, drv):
             sched.finish(i)
     api.load_model = load_hook
     api.os = OsProxy(real_os, sched, tl)
-    install_open(api, lambda pth, mode: SchedFile(sched, tl.i, pth, mode) if getattr(tl, "i", None) is not None
-                 else io.open(pth, mode))
+    cache_name = os.path.basename(path)
+    install_open(api, lambda pth, mode: SchedFile(sched, tl.i, pth, mode, visible=os.path.basename(str(pth)) == cache_name)
+                 if getattr(tl, "i", None) is not None else io.open(pth, mode))
     try:
         ths = [threading.Thread(target=body, args=(i,)) for i in (0, 1)]
         for t in ths:
@@ -625,8 +638,7 @@ def run_schedule(ctx, bench, seed, f0, drv):
         api.load_model = orig_load
     acts = [e["act"] for e in sched.log]
     case["acts"] = acts
-    opens = sum(1 for a in acts if a[0] == "open")
-    fsops = [a for a in acts if a[0] == "fsop"]
+    opens = sum(1 for a in acts if a[0] in ("open", "tmp-open"))
     ctx.case({"stream": "interleave", "acts": len(acts), "opens": opens, "f0": f0kind}, nontrivial=opens == 2 or f0 is not None,
              key=["sched", bench.text, seed, f0kind])
     ctx.count("schedule:" + ("two-writers" if opens == 2 else "one-writer" if opens == 1 else "no-writer"))
@@ -656,14 +668,30 @@ def run_schedule(ctx, bench, seed, f0, drv):
                       case, expected="correct model", observed=str(m) if not ok else "diff", kind="schedule")
         return
     if drv is not None:
-        if fsops:
-            ctx.disagreement("schedule.unmodelled-file-operation", case, "the model has load/open/write/close only", fsops[:4])
+        # acts of the Lean model: steps on the cache file itself, and a rename of a (private, complete) temporary
+        # file over it; steps on other paths are invisible to readers and skipped
+        macts, mlog, unmodelled = [], [], []
+        for ent in sched.log:
+            a = ent["act"]
+            if a[0] in ("load", "open", "write", "close"):
+                macts.append(a)
+                mlog.append(ent)
+            elif a[0] == "fsop":
+                names = a[3:]
+                if a[2] in ("replace", "rename") and len(names) == 2 and names[1] == cache_name and names[0] != cache_name:
+                    macts.append(["replace", a[1]])
+                    mlog.append(ent)
+                elif cache_name in names:
+                    unmodelled.append(a)
+        ctx.count("schedule-writer:" + ("atomic-rename" if any(a[0] == "replace" for a in macts) else "in-place"))
+        if unmodelled:
+            ctx.disagreement("schedule.unmodelled-file-operation", case, "the model has load/open/write/close/replace on the cache file",
+                             unmodelled[:4])
             return
-        macts = [a for a in acts if a[0] != "fsop"]
         ans = drv.ask({"op": "file.run", "B": list(bench.B), "f0": None if f0 is None else list(f0), "acts": macts})
         if not ans.get("ok"):
             raise HarnessError("drv_c21 rejected file.run: %s" % ans)
-        for j, (ms, rs) in enumerate(zip(ans["steps"], sched.log)):
+        for j, (ms, rs) in enumerate(zip(ans["steps"], mlog)):
             if not ms.get("enabled"):
                 ctx.disagreement("schedule.enabled", dict(case, step=j), "not enabled in the model", "executed by the real code: %s" % rs["act"])
                 return
